@@ -160,6 +160,17 @@ func init() {
 	reg("(*github.com/sourcegraph/conc.WaitGroup).Wait", nop)
 	reg("(*github.com/sourcegraph/conc.WaitGroup).WaitAndRecover", nop)
 
+	reg("maps.clone", func(in *Interp, c *Frame, fn *ssa.Function, a []Value) Value {
+		iv := a[0].(Iface)
+		m, _ := iv.v.(*MapObj)
+		if m == nil {
+			return iv
+		}
+		in.nextObj++
+		nm := &MapObj{id: in.nextObj, keyT: m.keyT, valT: m.valT, ents: append([]mapEnt{}, m.ents...)}
+		return Iface{t: iv.t, v: nm}
+	})
+
 	// ---------- sync ----------
 	for _, n := range []string{"(*sync.Mutex).Lock", "(*sync.Mutex).Unlock", "(*sync.RWMutex).Lock", "(*sync.RWMutex).Unlock",
 		"(*sync.RWMutex).RLock", "(*sync.RWMutex).RUnlock", "(*sync.WaitGroup).Add", "(*sync.WaitGroup).Done", "(*sync.WaitGroup).Wait",
